@@ -145,14 +145,14 @@ Proof.
       * pose proof Hb as Hb0. apply bal_1 in Hb. subst cs. eexists _, _. split; [reflexivity|].
         apply maybe_split_inv; [reflexivity| |constructor]. rewrite insert_at_length. lia.
       * pose proof Hb as Hb0. apply bal_SS in Hb. destruct Hb as [Hl Hfb].
-        destruct cs as [|c0 cs0] eqn:Ecs; [discriminate|]. rewrite <- Ecs in *. clear Ecs c0 cs0.
+        destruct cs as [|c0 cs0] eqn:Ecs; [discriminate|]. cbv beta iota. rewrite <- Ecs in *. clear Ecs c0 cs0.
         destruct (nth_error cs pos) as [c|] eqn:Ec; [|apply nth_error_None in Ec; lia].
         destruct (split_nth _ _ _ _ Ec) as (cs1 & cs2 & -> & Hc1).
         apply Forall_app_mid in Hf. destruct Hf as (Hf1 & Hfc & Hf2).
         apply Forall_app_mid in Hfb. destruct Hfb as (Hb1 & Hbc & Hb2).
         destruct (IH (S h') minE e c Hbc Hfc ltac:(lia)) as (rc & bc & Ei & Hok). rewrite Ei.
-        rewrite <- Hc1. rewrite replace_at_app.
-        destruct rc as [c'|l mid rr]; unfold ins_ok in Hok.
+        rewrite <- Hc1.
+        destruct rc as [c'|l mid rr]; unfold ins_ok in Hok; cbv beta iota; rewrite replace_at_app.
         -- destruct Hok as [Hbc' Hcc']. eexists _, _. split; [reflexivity|]. unfold ins_ok. split.
            ++ apply bal_SS. split; [rewrite !app_length in *; cbn [length] in *; lia|]. apply Forall_app_mid. auto.
            ++ apply cnt_inv. split; [lia|]. apply Forall_app_mid. auto.
@@ -184,4 +184,407 @@ Proof.
     apply cnt_inv. split; [cbn [length]; unfold maxEntries; lia|constructor].
 Qed.
 
+(* ---------- deletion: rebalance_child never fails and restores the entry counts ---------- *)
+Lemma list_rev_case : forall A (l : list A), l = [] \/ exists l' x, l = l' ++ [x].
+Proof.
+  intros A l. destruct l as [|a l]; [left; reflexivity|right].
+  destruct (exists_last (l:=a :: l)) as (l' & x & E); [discriminate|]. exists l', x. exact E.
+Qed.
+
+Lemma bl_pair_Forall : forall (P : node -> Prop) lcs ccs a b, Forall P lcs -> Forall P ccs ->
+  bl_pair lcs ccs = (a, b) -> Forall P a /\ Forall P b.
+Proof.
+  intros P lcs ccs a b H1 H2 E. destruct (list_rev_case _ lcs) as [->|(l' & x & ->)].
+  - rewrite bl_pair_nil in E. injection E as <- <-. auto.
+  - rewrite bl_pair_snoc in E. injection E as <- <-. apply Forall_app in H1. destruct H1 as [H1 H1'].
+    split; [exact H1|]. constructor; [exact (Forall_inv H1')|exact H2].
+Qed.
+
+Lemma br_pair_Forall : forall (P : node -> Prop) rcs ccs a b, Forall P rcs -> Forall P ccs ->
+  br_pair rcs ccs = (a, b) -> Forall P a /\ Forall P b.
+Proof.
+  intros P rcs ccs a b H1 H2 E. destruct rcs as [|rc rcs']; cbn in E; injection E as <- <-.
+  - auto.
+  - split; [exact (Forall_inv_tail H1)|]. apply Forall_app. split; [exact H2|]. constructor; [exact (Forall_inv H1)|constructor].
+Qed.
+
+Definition reb_good (es : list entry) (r : option node) : Prop :=
+  exists es' cs', r = Some (N es' cs') /\ (length es - 1 <= length es' <= length es)%nat /\
+                  Forall (cnt m minE) cs'.
+
+(* left sibling L, deficient child C at position S (length cs1) *)
+Lemma borrow_left_ok : forall es cs1 les lcs ces ccs cs2,
+  length (cs1 ++ N les lcs :: N ces ccs :: cs2) = S (length es) ->
+  Forall (cnt m minE) cs1 -> Forall (cnt m minE) cs2 -> cnt m minE (N les lcs) ->
+  length ces = (minE - 1)%nat -> Forall (cnt m minE) ccs ->
+  (minE < length les)%nat ->
+  reb_good es (borrow_left_f m es (cs1 ++ N les lcs :: N ces ccs :: cs2) (S (length cs1)) ces ccs).
+Proof.
+  intros es cs1 les lcs ces ccs cs2 Hlen Hf1 Hf2 HL Hces Hccs Hlt.
+  pose proof minE_pos as Hp. pose proof two_minE as H2.
+  apply cnt_inv in HL. destruct HL as [HLl HLf].
+  rewrite app_length in Hlen. cbn [length] in Hlen.
+  unfold borrow_left_f, left_sib. cbn [Nat.leb]. rewrite Nat.sub_succ, Nat.sub_0_r.
+  rewrite nth_error_app_mid. apply Nat.ltb_lt in Hlt. rewrite Hlt. apply Nat.ltb_lt in Hlt.
+  destruct (nth_error es (length cs1)) as [sep|] eqn:Esep; [|apply nth_error_None in Esep; lia].
+  destruct (last_opt_cons_some _ les) as [le Hle]; [intros ->; cbn in Hlt; lia|]. rewrite Hle.
+  destruct (bl_pair lcs ccs) as [lcs' ccs'] eqn:Ep.
+  destruct (bl_pair_Forall _ _ _ _ _ HLf Hccs Ep) as [Hlcs' Hccs'].
+  rewrite replace_at_adj_lo, replace_at_adj_hi.
+  eexists _, _. split; [reflexivity|]. split.
+  - rewrite replace_at_length by lia. lia.
+  - apply Forall_adj. split; [exact Hf1|]. split; [|split; [|exact Hf2]].
+    + apply cnt_inv. split; [|exact Hlcs']. apply last_opt_Some in Hle.
+      assert (length les = S (length (removelast les))) by (rewrite Hle at 1; rewrite app_length; cbn; lia). lia.
+    + apply cnt_inv. split; [cbn [length]; lia|exact Hccs'].
+Qed.
+
+Lemma borrow_left_none_first : forall es cs ces ccs, borrow_left_f m es cs 0 ces ccs = None.
+Proof. reflexivity. Qed.
+
+Lemma borrow_left_none : forall es cs1 les lcs ces ccs cs2,
+  (length les <= minE)%nat ->
+  borrow_left_f m es (cs1 ++ N les lcs :: N ces ccs :: cs2) (S (length cs1)) ces ccs = None.
+Proof.
+  intros es cs1 les lcs ces ccs cs2 Hle.
+  unfold borrow_left_f, left_sib. cbn [Nat.leb]. rewrite Nat.sub_succ, Nat.sub_0_r.
+  rewrite nth_error_app_mid. apply Nat.ltb_ge in Hle. rewrite Hle. reflexivity.
+Qed.
+
+(* deficient child C at position length cs1, right sibling R *)
+Lemma borrow_right_ok : forall es cs1 ces ccs res rcs cs2,
+  length (cs1 ++ N ces ccs :: N res rcs :: cs2) = S (length es) ->
+  Forall (cnt m minE) cs1 -> Forall (cnt m minE) cs2 -> cnt m minE (N res rcs) ->
+  length ces = (minE - 1)%nat -> Forall (cnt m minE) ccs ->
+  (minE < length res)%nat ->
+  reb_good es (borrow_right_f m es (cs1 ++ N ces ccs :: N res rcs :: cs2) (length cs1) ces ccs).
+Proof.
+  intros es cs1 ces ccs res rcs cs2 Hlen Hf1 Hf2 HR Hces Hccs Hlt.
+  pose proof minE_pos as Hp. pose proof two_minE as H2.
+  apply cnt_inv in HR. destruct HR as [HRl HRf].
+  rewrite app_length in Hlen. cbn [length] in Hlen.
+  unfold borrow_right_f.
+  replace (nth_error (cs1 ++ N ces ccs :: N res rcs :: cs2) (S (length cs1))) with (Some (N res rcs)).
+  2:{ rewrite nth_error_app2 by lia. replace (S (length cs1) - length cs1)%nat with 1%nat by lia. reflexivity. }
+  apply Nat.ltb_lt in Hlt. rewrite Hlt. apply Nat.ltb_lt in Hlt.
+  destruct (nth_error es (length cs1)) as [sep|] eqn:Esep; [|apply nth_error_None in Esep; lia].
+  destruct res as [|re res']; [cbn in Hlt; lia|].
+  destruct (br_pair rcs ccs) as [rcs' ccs'] eqn:Ep.
+  destruct (br_pair_Forall _ _ _ _ _ HRf Hccs Ep) as [Hrcs' Hccs'].
+  rewrite replace_at_adj_lo, replace_at_adj_hi.
+  eexists _, _. split; [reflexivity|]. split.
+  - rewrite replace_at_length by lia. lia.
+  - apply Forall_adj. split; [exact Hf1|]. split; [|split; [|exact Hf2]].
+    + apply cnt_inv. split; [rewrite app_length; cbn [length]; lia|exact Hccs'].
+    + apply cnt_inv. split; [cbn [length] in *; lia|exact Hrcs'].
+Qed.
+
+Lemma borrow_right_none_last : forall es cs1 ces ccs,
+  borrow_right_f m es (cs1 ++ [N ces ccs]) (length cs1) ces ccs = None.
+Proof.
+  intros es cs1 ces ccs. unfold borrow_right_f.
+  replace (nth_error (cs1 ++ [N ces ccs]) (S (length cs1))) with (@None node); [reflexivity|].
+  symmetry. apply nth_error_None. rewrite app_length. cbn. lia.
+Qed.
+
+Lemma borrow_right_none : forall es cs1 ces ccs res rcs cs2,
+  (length res <= minE)%nat ->
+  borrow_right_f m es (cs1 ++ N ces ccs :: N res rcs :: cs2) (length cs1) ces ccs = None.
+Proof.
+  intros es cs1 ces ccs res rcs cs2 Hle. unfold borrow_right_f.
+  replace (nth_error (cs1 ++ N ces ccs :: N res rcs :: cs2) (S (length cs1))) with (Some (N res rcs)).
+  2:{ rewrite nth_error_app2 by lia. replace (S (length cs1) - length cs1)%nat with 1%nat by lia. reflexivity. }
+  apply Nat.ltb_ge in Hle. rewrite Hle. reflexivity.
+Qed.
+
+Lemma merge_right_ok : forall es cs1 ces ccs res rcs cs2,
+  length (cs1 ++ N ces ccs :: N res rcs :: cs2) = S (length es) ->
+  Forall (cnt m minE) cs1 -> Forall (cnt m minE) cs2 -> cnt m minE (N res rcs) ->
+  length ces = (minE - 1)%nat -> Forall (cnt m minE) ccs ->
+  (length res <= minE)%nat ->
+  reb_good es (merge_f es (cs1 ++ N ces ccs :: N res rcs :: cs2) (length cs1) ces ccs).
+Proof.
+  intros es cs1 ces ccs res rcs cs2 Hlen Hf1 Hf2 HR Hces Hccs Hle.
+  pose proof minE_pos as Hp. pose proof two_minE as H2.
+  apply cnt_inv in HR. destruct HR as [HRl HRf].
+  rewrite app_length in Hlen. cbn [length] in Hlen.
+  unfold merge_f.
+  replace (nth_error (cs1 ++ N ces ccs :: N res rcs :: cs2) (S (length cs1))) with (Some (N res rcs)).
+  2:{ rewrite nth_error_app2 by lia. replace (S (length cs1) - length cs1)%nat with 1%nat by lia. reflexivity. }
+  destruct (nth_error es (length cs1)) as [sep|] eqn:Esep; [|apply nth_error_None in Esep; lia].
+  rewrite replace_at_adj_lo, remove_at_adj_hi.
+  eexists _, _. split; [reflexivity|]. split.
+  - rewrite remove_at_length by lia. lia.
+  - apply Forall_app_mid. split; [exact Hf1|]. split; [|exact Hf2].
+    apply cnt_inv. split; [rewrite app_length; cbn [length]; lia|]. apply Forall_app. split; assumption.
+Qed.
+
+Lemma merge_left_ok : forall es cs1 les lcs ces ccs,
+  length (cs1 ++ [N les lcs; N ces ccs]) = S (length es) ->
+  Forall (cnt m minE) cs1 -> cnt m minE (N les lcs) ->
+  length ces = (minE - 1)%nat -> Forall (cnt m minE) ccs ->
+  (length les <= minE)%nat ->
+  reb_good es (merge_f es (cs1 ++ [N les lcs; N ces ccs]) (S (length cs1)) ces ccs).
+Proof.
+  intros es cs1 les lcs ces ccs Hlen Hf1 HL Hces Hccs Hle.
+  pose proof minE_pos as Hp. pose proof two_minE as H2.
+  apply cnt_inv in HL. destruct HL as [HLl HLf].
+  rewrite app_length in Hlen. cbn [length] in Hlen.
+  unfold merge_f, left_sib. cbn [Nat.leb]. rewrite Nat.sub_succ, Nat.sub_0_r.
+  replace (nth_error (cs1 ++ [N les lcs; N ces ccs]) (S (S (length cs1)))) with (@None node).
+  2:{ symmetry. apply nth_error_None. rewrite app_length. cbn. lia. }
+  rewrite nth_error_app_mid.
+  destruct (nth_error es (length cs1)) as [sep|] eqn:Esep; [|apply nth_error_None in Esep; lia].
+  rewrite replace_at_adj_hi, remove_at_adj_lo.
+  eexists _, _. split; [reflexivity|]. split.
+  - rewrite remove_at_length by lia. lia.
+  - apply Forall_app_mid. split; [exact Hf1|]. split; [|constructor].
+    apply cnt_inv. split; [rewrite app_length; cbn [length]; lia|]. apply Forall_app. split; assumption.
+Qed.
+
+Lemma rebalance_ok : forall es cs1 c cs2,
+  length (cs1 ++ c :: cs2) = S (length es) -> (1 <= length es)%nat ->
+  Forall (cnt m minE) cs1 -> cnt m (minE - 1) c -> Forall (cnt m minE) cs2 ->
+  reb_good es (rebalance_child m es (cs1 ++ c :: cs2) (length cs1)).
+Proof.
+  intros es cs1 [ces ccs] cs2 Hlen Hes Hf1 Hc Hf2.
+  rewrite rebalance_child_eq. rewrite nth_error_app_mid.
+  destruct (minE <=? length ces)%nat eqn:E.
+  - apply Nat.leb_le in E. eexists _, _. split; [reflexivity|]. split; [lia|].
+    apply Forall_app_mid. split; [exact Hf1|]. split; [|exact Hf2]. eapply cnt_raise; eassumption.
+  - apply Nat.leb_gt in E. apply cnt_inv in Hc. destruct Hc as [Hcl Hccs].
+    assert (Hces : length ces = (minE - 1)%nat) by lia.
+    (* what the right-hand side does once borrowing from the left has failed *)
+    assert (Hright : forall r, cs2 = r :: tl cs2 ->
+              reb_good es (match borrow_right_f m es (cs1 ++ N ces ccs :: cs2) (length cs1) ces ccs with
+                           | Some x => Some x
+                           | None => merge_f es (cs1 ++ N ces ccs :: cs2) (length cs1) ces ccs
+                           end)).
+    { intros [res rcs] E2. rewrite E2 in *. remember (tl cs2) as cs2' eqn:E2'. clear E2' E2.
+      pose proof (Forall_inv Hf2) as HR. pose proof (Forall_inv_tail Hf2) as Hf2'.
+      destruct (Nat.lt_ge_cases minE (length res)) as [Hlt|Hge].
+      - destruct (borrow_right_ok es cs1 ces ccs res rcs cs2' Hlen Hf1 Hf2' HR Hces Hccs Hlt) as (es' & cs' & Eq & Hgood).
+        rewrite Eq. exists es', cs'. split; [reflexivity|exact Hgood].
+      - rewrite borrow_right_none by exact Hge.
+        apply merge_right_ok; assumption. }
+    destruct (list_rev_case _ cs1) as [->|(cs1' & [les lcs] & ->)].
+    + (* first child: no left sibling *)
+      cbn [app length] in *. rewrite borrow_left_none_first.
+      destruct cs2 as [|r cs2']; [cbn [length] in Hlen; lia|]. apply (Hright r). reflexivity.
+    + apply Forall_app in Hf1. destruct Hf1 as [Hf1' HL]. pose proof (Forall_inv HL) as HL'.
+      assert (Ecs : (cs1' ++ [N les lcs]) ++ N ces ccs :: cs2 = cs1' ++ N les lcs :: N ces ccs :: cs2)
+        by (rewrite <- app_assoc; reflexivity).
+      assert (Ei : length (cs1' ++ [N les lcs]) = S (length cs1')) by (rewrite app_length; cbn; lia).
+      destruct (Nat.lt_ge_cases minE (length les)) as [Hlt|Hge].
+      * rewrite Ecs, Ei in *.
+        destruct (borrow_left_ok es cs1' les lcs ces ccs cs2 Hlen Hf1' Hf2 HL' Hces Hccs Hlt) as (es' & cs' & Eq & Hgood).
+        rewrite Eq. exists es', cs'. split; [reflexivity|exact Hgood].
+      * destruct cs2 as [|r cs2'].
+        -- rewrite Ecs, Ei in *. rewrite borrow_left_none by exact Hge.
+           replace (cs1' ++ [N les lcs; N ces ccs]) with ((cs1' ++ [N les lcs]) ++ [N ces ccs]) at 1 by (rewrite <- app_assoc; reflexivity).
+           rewrite <- Ei at 1. rewrite borrow_right_none_last.
+           apply merge_left_ok; assumption.
+        -- specialize (Hright r eq_refl). rewrite Ecs, Ei in *. rewrite borrow_left_none by exact Hge. exact Hright.
+Qed.
+
+Lemma reb_good_cnt : forall lo es r, reb_good es r -> (lo <= length es <= maxE)%nat ->
+  exists n', r = Some n' /\ cnt m (lo - 1) n'.
+Proof.
+  intros lo es r (es' & cs' & -> & Hlen & Hf) Hes. eexists. split; [reflexivity|].
+  apply cnt_inv. split; [lia|exact Hf].
+Qed.
+
+Lemma delmax_ok : forall fuel h lo n, bal h n -> cnt m lo n -> (1 <= lo)%nat -> (h <= fuel)%nat ->
+  exists n' e, delmax m fuel n = Some (n', e) /\ cnt m (lo - 1) n' /\ bal h n'.
+Proof.
+  induction fuel as [|f IH]; intros h lo [es cs] Hb Hc Hlo Hfuel.
+  - destruct h; [contradiction|lia].
+  - assert (Hgoal : exists n' e, delmax m (S f) (N es cs) = Some (n', e) /\ cnt m (lo - 1) n').
+    { cbn [delmax]. apply cnt_inv in Hc. destruct Hc as [Hlen Hf].
+      destruct h as [|[|h']]; [contradiction| |].
+      - apply bal_1 in Hb. subst cs.
+        destruct (last_opt_cons_some _ es) as [le Hle]; [intros ->; cbn in Hlen; lia|]. rewrite Hle.
+        eexists _, _. split; [reflexivity|]. apply cnt_inv. split; [|constructor].
+        apply last_opt_Some in Hle.
+        assert (length es = S (length (removelast es))) by (rewrite Hle at 1; rewrite app_length; cbn; lia). lia.
+      - apply bal_SS in Hb. destruct Hb as [Hl Hfb].
+        destruct (list_rev_case _ cs) as [->|(cs1 & c & ->)]; [discriminate|].
+        destruct (cs1 ++ [c]) as [|c0 cs0] eqn:Ecs; [destruct cs1; discriminate|]. rewrite <- Ecs in *. clear Ecs c0 cs0.
+        rewrite app_length in *. cbn [length] in *.
+        replace (length cs1 + 1 - 1)%nat with (length cs1) by lia. rewrite nth_error_app_mid.
+        apply Forall_app in Hf. destruct Hf as [Hf1 Hfc]. apply Forall_inv in Hfc.
+        apply Forall_app in Hfb. destruct Hfb as [Hb1 Hbc]. apply Forall_inv in Hbc.
+        destruct (IH (S h') minE c Hbc Hfc minE_pos ltac:(lia)) as (c' & e & Ed & Hcc' & Hbc'). rewrite Ed.
+        rewrite replace_at_app.
+        destruct (reb_good_cnt lo es (rebalance_child m es (cs1 ++ [c']) (length cs1))) as (n1 & Er & Hn1).
+        + apply rebalance_ok; [rewrite app_length; cbn [length]; lia|lia|exact Hf1|exact Hcc'|constructor].
+        + exact Hlen.
+        + rewrite Er. eexists _, _. split; [reflexivity|exact Hn1]. }
+    destruct Hgoal as (n' & e & Ed & Hcn). exists n', e. split; [exact Ed|]. split; [exact Hcn|].
+    destruct (delmax_inorder m Hm (S f) h (N es cs) n' e Hb Hfuel Ed) as [_ Hb']. exact Hb'.
+Qed.
+
+Lemma del_ok : forall fuel h lo key n, bal h n -> cnt m lo n -> (1 <= lo)%nat -> (h <= fuel)%nat ->
+  exists n' b, del m cmp fuel key n = Some (n', b) /\ cnt m (lo - 1) n' /\ bal h n'.
+Proof.
+  induction fuel as [|f IH]; intros h lo key [es cs] Hb Hc Hlo Hfuel.
+  - destruct h; [contradiction|lia].
+  - cbn [del]. pose proof Hc as Hc0. apply cnt_inv in Hc. destruct Hc as [Hlen Hf].
+    destruct (search cmp key es) as [pos found] eqn:Es.
+    destruct (search_bound _ _ _ _ _ Es) as [Hpos Hfound].
+    destruct h as [|[|h']]; [contradiction| |].
+    + pose proof Hb as Hb0. apply bal_1 in Hb. subst cs. destruct found.
+      * specialize (Hfound eq_refl). eexists _, _. split; [reflexivity|]. split; [|reflexivity].
+        apply cnt_inv. rewrite remove_at_length by exact Hfound. split; [lia|constructor].
+      * eexists _, _. split; [reflexivity|]. split; [|exact Hb0]. eapply cnt_weaken; [exact Hc0|lia].
+    + pose proof Hb as Hb0. apply bal_SS in Hb. destruct Hb as [Hl Hfb].
+      destruct cs as [|c0 cs0] eqn:Ecs; [discriminate|]. cbv beta iota. rewrite <- Ecs in *. clear Ecs c0 cs0.
+      destruct (nth_error cs pos) as [c|] eqn:Ec; [|apply nth_error_None in Ec; lia].
+      destruct (split_nth _ _ _ _ Ec) as (cs1 & cs2 & -> & Hc1).
+      apply Forall_app_mid in Hf. destruct Hf as (Hf1 & Hfc & Hf2).
+      apply Forall_app_mid in Hfb. destruct Hfb as (Hb1 & Hbc & Hb2).
+      assert (Hreb : forall es' c', length es' = length es -> cnt m (minE - 1) c' -> bal (S h') c' ->
+                exists n1, rebalance_child m es' (cs1 ++ c' :: cs2) (length cs1) = Some n1 /\
+                           cnt m (lo - 1) n1 /\ bal (S (S h')) n1).
+      { intros es' c' Hes' Hcc' Hbc'.
+        destruct (reb_good_cnt lo es' (rebalance_child m es' (cs1 ++ c' :: cs2) (length cs1))) as (n1 & Er & Hn1).
+        - apply rebalance_ok; [rewrite !app_length in *; cbn [length] in *; lia|lia|exact Hf1|exact Hcc'|exact Hf2].
+        - lia.
+        - exists n1. split; [exact Er|]. split; [exact Hn1|].
+          destruct (rebalance_inorder m h' es' (cs1 ++ c' :: cs2) (length cs1) n1) as [_ Hbn1]; [| |exact Er|exact Hbn1].
+          + rewrite !app_length in *; cbn [length] in *; lia.
+          + apply Forall_app_mid. auto. }
+      rewrite <- Hc1. destruct found.
+      * specialize (Hfound eq_refl).
+        destruct (delmax_ok f (S h') minE c Hbc Hfc minE_pos ltac:(lia)) as (c' & pred & Ed & Hcc' & Hbc'). rewrite Ed.
+        rewrite replace_at_app.
+        destruct (Hreb (replace_at (length cs1) pred es) c') as (n1 & Er & Hn1); [apply replace_at_length; lia|assumption|assumption|].
+        rewrite Er. eexists _, _. split; [reflexivity|exact Hn1].
+      * destruct (IH (S h') minE key c Hbc Hfc minE_pos ltac:(lia)) as (c' & bc & Edl & Hcc' & Hbc'). rewrite Edl.
+        destruct bc.
+        -- rewrite replace_at_app. destruct (Hreb es c' eq_refl Hcc' Hbc') as (n1 & Er & Hn1).
+           rewrite Er. eexists _, _. split; [reflexivity|exact Hn1].
+        -- eexists _, _. split; [reflexivity|]. split; [|exact Hb0]. eapply cnt_weaken; [exact Hc0|lia].
+Qed.
+
+Theorem remove_inv : forall key root, btree_inv m root ->
+  exists root' b, remove m cmp (S (hroot root)) key root = Some (root', b) /\ btree_inv m root'.
+Proof.
+  intros key [n|] Hinv; cbn [remove hroot].
+  - destruct Hinv as (h & Hb & Hc). rewrite (bal_height _ _ Hb).
+    destruct (del_ok (S h) h 1 key n Hb Hc ltac:(lia) ltac:(lia)) as (n' & b & Ed & Hcn & Hbn). rewrite Ed.
+    destruct n' as [[|e1 es1] cs1].
+    + destruct cs1 as [|c1 cs1].
+      * eexists _, _. split; [reflexivity|exact I].
+      * eexists _, _. split; [reflexivity|]. destruct h as [|[|h']]; [contradiction| |].
+        -- apply bal_1 in Hbn. discriminate.
+        -- apply bal_SS in Hbn. destruct Hbn as [_ Hfb]. apply Forall_inv in Hfb.
+           apply cnt_inv in Hcn. destruct Hcn as [_ Hf]. apply Forall_inv in Hf.
+           exists (S h'). split; [exact Hfb|]. eapply cnt_weaken; [exact Hf|apply minE_pos].
+    + eexists _, _. split; [reflexivity|]. exists h. split; [exact Hbn|].
+      eapply cnt_raise; [exact Hcn|cbn [length]; lia].
+  - eexists _, _. split; [reflexivity|exact I].
+Qed.
+
 End Inv.
+
+(* ---------- boolean checker ---------- *)
+Fixpoint okb (m lo h : nat) (n : node) : bool :=
+  match h with
+  | O => false
+  | S h' =>
+    match n with N es cs =>
+      (lo <=? length es)%nat && (length es <=? maxEntries m)%nat &&
+      match h' with
+      | O => match cs with [] => true | _ => false end
+      | S _ => (length cs =? S (length es))%nat && forallb (okb m (minEntries m) h') cs
+      end
+    end
+  end.
+
+Definition btree_okb (m : nat) (root : option node) : bool :=
+  match root with
+  | None => true
+  | Some n => okb m 1 (height n) n
+  end.
+
+Lemma okb_spec : forall m h lo n, okb m lo h n = true <-> (bal h n /\ cnt m lo n).
+Proof.
+  intros m. induction h as [|h IH]; intros lo [es cs].
+  - cbn. split; [discriminate|tauto].
+  - cbn [okb]. rewrite !andb_true_iff, Nat.leb_le, Nat.leb_le. rewrite cnt_inv.
+    destruct h as [|h'].
+    + rewrite bal_1. destruct cs as [|c cs].
+      * split; [intros [H _]; split; [reflexivity|split; [lia|constructor]]|intros (_ & H & _); split; [lia|reflexivity]].
+      * split; [intros [_ H]; discriminate|intros [H _]; discriminate].
+    + rewrite bal_SS, andb_true_iff, Nat.eqb_eq, forallb_forall.
+      assert (Hiff : (forall x, In x cs -> okb m (minEntries m) (S h') x = true) <->
+                     (Forall (bal (S h')) cs /\ Forall (cnt m (minEntries m)) cs)).
+      { rewrite !Forall_forall. split.
+        - intros H. split; intros x Hx; apply (IH (minEntries m) x); apply H; exact Hx.
+        - intros [H1 H2] x Hx. apply IH. split; [apply H1|apply H2]; exact Hx. }
+      rewrite Hiff. tauto.
+Qed.
+
+Theorem btree_okb_spec : forall m r, btree_okb m r = true <-> btree_inv m r.
+Proof.
+  intros m [n|]; cbn [btree_okb btree_inv]; [|tauto].
+  rewrite okb_spec. split.
+  - intros H. exists (height n). exact H.
+  - intros (h & Hb & Hc). rewrite (bal_height _ _ Hb). split; assumption.
+Qed.
+
+(* consequences of the invariant used elsewhere *)
+Lemma btree_inv_height : forall m n, btree_inv m (Some n) -> height n = maxheight n.
+Proof.
+  intros m n (h & Hb & _). rewrite (bal_height _ _ Hb), (bal_maxheight _ _ Hb). reflexivity.
+Qed.
+
+Lemma btree_inv_wf : forall m n, btree_inv m (Some n) -> wf_shape n.
+Proof. intros m n (h & Hb & _). eapply bal_wf. exact Hb. Qed.
+
+(* ---------- shape + refinement packaged together (fuel as passed by the machine) ---------- *)
+Definition sorted_root (cmp : cmpf) (r : option node) : Prop :=
+  match r with None => True | Some n => bst cmp n end.
+
+Theorem put_correct : forall m cmp e root, (3 <= m)%nat -> SWO cmp ->
+  btree_inv m root -> sorted_root cmp root ->
+  exists root' b, put m cmp (S (hroot root)) e root = Some (root', b) /\
+    btree_inv m root' /\ sorted_root cmp root' /\
+    inorder' root' = MapSpec.ins_list cmp (fst e) (snd e) (inorder' root) /\
+    b = negb (MapSpec.mem_list cmp (fst e) (inorder' root)).
+Proof.
+  intros m cmp e root Hm Hswo Hinv Hs.
+  destruct (put_inv m Hm cmp e root Hinv) as (root' & b & Hp & Hinv').
+  exists root', b. split; [exact Hp|]. split; [exact Hinv'|].
+  destruct (put_inorder cmp Hswo m Hm (S (hroot root)) e root root' b) as (Hin & Hwf & Hb).
+  - destruct root as [n|]; [|exact I]. cbn [hroot]. rewrite (btree_inv_height _ _ Hinv). lia.
+  - destruct root as [n|]; [|exact I]. split; [eapply btree_inv_wf; exact Hinv|exact Hs].
+  - exact Hp.
+  - split; [|split; assumption]. destruct root' as [n'|]; [|exact I]. destruct Hwf as [_ Hbst]. exact Hbst.
+Qed.
+
+Theorem remove_correct : forall m cmp key root, (3 <= m)%nat -> SWO cmp ->
+  btree_inv m root -> sorted_root cmp root ->
+  exists root' b, remove m cmp (S (hroot root)) key root = Some (root', b) /\
+    btree_inv m root' /\ sorted_root cmp root' /\
+    inorder' root' = MapSpec.del_list cmp key (inorder' root) /\
+    b = MapSpec.mem_list cmp key (inorder' root).
+Proof.
+  intros m cmp key root Hm Hswo Hinv Hs.
+  destruct (remove_inv m Hm cmp key root Hinv) as (root' & b & Hp & Hinv').
+  exists root', b. split; [exact Hp|]. split; [exact Hinv'|].
+  destruct (remove_inorder cmp Hswo m Hm (S (hroot root)) key root root' b) as (Hin & Hwf & Hb & _).
+  - destruct root as [n|]; [|exact I]. cbn [hroot bal_root]. split.
+    + destruct Hinv as (h & Hbal & _). exists h. exact Hbal.
+    + rewrite (btree_inv_height _ _ Hinv). lia.
+  - destruct root as [n|]; [|exact I]. split; [eapply btree_inv_wf; exact Hinv|exact Hs].
+  - exact Hp.
+  - split; [|split; assumption]. destruct root' as [n'|]; [|exact I]. destruct Hwf as [_ Hbst]. exact Hbst.
+Qed.
+
+Print Assumptions put_inv.
+Print Assumptions remove_inv.
+Print Assumptions btree_okb_spec.
+Print Assumptions put_correct.
+Print Assumptions remove_correct.
